@@ -405,7 +405,7 @@ Proof.
   replace (smallidx + 8 - 8) with smallidx in H by lia.
   destruct (enc_loop _ _ _ _ _ _ _ _ cs) as [bits|] eqn:E; [|discriminate]. injection H as <-.
   unfold xtc_decode. cbn [xp_min xp_max xp_smallidx xp_bytes]. rewrite Nat2Z.id.
-  destruct (pack_bits_spec bits) as [k ->].
+  destruct (pack_bits_spec bits) as [k [_ ->]].
   assert (span_ok mn mx) as Hspan.
   { destruct mn as [[a0 a1] a2], mx as [[b0 b1] b2]. unfold mk_absfmt in G2. cbn [tsub tlist map] in G2.
     assert (existsb (fun s : Z => int_max - 2 <=? s) [b0 - a0 + 1; b1 - a1 + 1; b2 - a2 + 1] = false) as G3.
